@@ -236,9 +236,15 @@ def _lkey(x):
     return repr(x)
 
 
-def classify(got, want, want_other_flag):
+def classify(got, want, want_other_flag, modulo_unif=False):
     """None if `got` is the wanted tree (unordered, with lengths and labels), else
-    the name of the first feature in which it differs."""
+    the name of the first feature in which it differs.  modulo_unif: single-child
+    nodes are merged on both sides before comparing (used where the source already
+    had unifurcations and suppression was requested: the statement asks for the
+    suppression of nodes *left* with one child and is silent about the others)."""
+    if modulo_unif:
+        got, want = suppress_all(got), suppress_all(want)
+        want_other_flag = None
     if ref.canon(got) == ref.canon(want):
         return None
     if want_other_flag is not None and ref.canon(got) == ref.canon(want_other_flag):
@@ -328,6 +334,9 @@ ONE_SHOT = ("iterator", "generator")
 
 
 def _sig(case, feature):
+    if case.get("container") in ONE_SHOT:
+        # one defect class (the argument is consumed by the first membership test)
+        return "%s|one-shot-iterable-argument" % case["api"]
     return "%s|%s" % (case["api"], feature)
 
 
@@ -351,7 +360,7 @@ def _report_difference(ctx, case, sn, got, want, want_other, keep, unrooted_leni
         elif feat is None and has_unifurcation(got) != has_unifurcation(want):
             feat = "unifurcations"
     else:
-        feat = classify(got, want, want_other)
+        feat = classify(got, want, want_other, modulo_unif=bool(case.get("unif")) and bool(case.get("suppress")))
     if feat == "flag":
         if case.get("suppress"):
             f = "unifurcations-kept-although-suppression-requested"
@@ -364,7 +373,7 @@ def _report_difference(ctx, case, sn, got, want, want_other, keep, unrooted_leni
     elif feat is not None:
         ctx.violation(_sig(case, feat), _msg(case, sn, got, want), case)
         ok = False
-    pp = path_problem(got, sn, keep)
+    pp = path_problem(got, sn, frozenset(x for x in ref.leaves(want) if x is not None))
     if pp:
         ctx.violation(_sig(case, "path-lengths"), _msg(case, sn, got, want, "; path length " + pp), case)
         ok = False
@@ -515,12 +524,22 @@ def check_subtree(case, ctx):
     sub_leaves = frozenset(x for x in ref.leaves(cl[i][1]) if x is not None)
     keep = frozenset(l for l in ref.leaves(sn) if l is not None and l not in sub_leaves)
     case = dict(case, keep=sorted(keep))
+    only_child = len(nodes[i]._parent_node._child_nodes) == 1
     try:
         tree.prune_subtree(nodes[i], update_bipartitions=case["upd"], suppress_unifurcations=case["suppress"])
     except Exception as e:
         ctx.violation(_sig(case, "exception|%s" % type(e).__name__),
                       "prune_subtree(node %d) on %s raised %r" % (i, ref.to_newick(sn), e), case)
         return
+    if case.get("unif") and only_child:
+        got = ref.snap_node(tree._seed_node)
+        bare = [x for x in ref.preorder(got) if not x[3] and x[0] is None]
+        if only_child and bare and not ref.wellformed(tree):
+            ctx.violation(_sig(case, "only-child|childless-parent-left-as-leaf"),
+                          "prune_subtree of the only child of node %s in %s (suppress_unifurcations=%r) gave %s: the emptied parent stays as a leaf without taxon; induced subtree is %s" % (
+                              bare[0][1], ref.to_newick(sn), case["suppress"], ref.to_newick(got),
+                              ref.to_newick(filtered(sn, keep, True, case["suppress"]))), case)
+            return
     _after_inplace(ctx, case, sn, tree, bit, keep, True, sub_labels if cl[i][1][3] else frozenset(), None, None, index, cl)
 
 
@@ -822,9 +841,13 @@ def run_core(chunk, ctx):
                     for rooted in rootings:
                         _do(dict(base, kind="subtree", api="prune_subtree", node=i, suppress=suppress, upd=upd, rooted=rooted),
                             ctx, "prune_subtree_calls", nt)
-        ctx.sample({"tree": ref.to_newick(sn), "layer": layer, "survivor_subsets": 2 ** n - 1,
-                    "example": {"survivors": list(labels[:max(1, n // 2)]),
-                                "induced": ref.to_newick(filtered(sn, frozenset(labels[:max(1, n // 2)]), True, True))}}, 1)
+        if n >= 4 and si % 7 == 0:
+            kp = frozenset(labels[1:n - 1])
+            ctx.sample({"tree": ref.to_newick(sn), "layer": layer, "namespace": nscfg, "survivor_subsets_enumerated": 2 ** n - 1,
+                        "example_survivors": sorted(kp),
+                        "induced_subtree": ref.to_newick(filtered(sn, kp, True, True)),
+                        "induced_subtree_suppression_declined": ref.to_newick(filtered(sn, kp, True, False)),
+                        "apis": INPLACE + ["prune_subtree"] + WRAPPERS + ["extract_tree"]}, 1)
     return None
 
 
@@ -896,6 +919,28 @@ def run_containers(chunk, ctx):
 
 
 def run_unif(chunk, ctx):
+    """sources that already contain one out-degree-one node (above any node, the root included)"""
+    n = chunk["n"]
+    labels = U.LABELS[:n]
+    shapes = U.shapes(n)
+    nt = n >= 3
+    for si in range(chunk["lo"], chunk["hi"]):
+        for shape in U.with_unifurcations(shapes[si], 1, (1,)):
+            sn = source_snapshot(shape, "pow2")
+            cl = ref.clade_list(sn)
+            base = {"n": n, "shape": shape, "lens": "pow2", "ns": "exact", "rooted": True, "unif": True}
+            ctx.count("source_trees_with_unifurcation")
+            for keep in nonempty_subsets(labels):
+                for suppress in (True, False):
+                    for api in INPLACE:
+                        _do(dict(base, kind="inplace", api=api, keep=list(keep), suppress=suppress, upd=False), ctx, "unifurcation_layer_calls", nt)
+                    for api in WRAPPERS + ["extract_tree"]:
+                        _do(dict(base, kind="extract", api=api, keep=list(keep), suppress=suppress), ctx, "unifurcation_layer_calls", nt)
+            for i in range(1, len(cl)):
+                if not (ref.clade(sn) - cl[i][0]):
+                    continue          # would remove every leaf
+                for suppress in (True, False):
+                    _do(dict(base, kind="subtree", api="prune_subtree", node=i, suppress=suppress, upd=False), ctx, "unifurcation_layer_calls", nt)
     return None
 
 
